@@ -61,7 +61,7 @@ var Meta = map[string]PropMeta{
 		Assumptions: []string{"input/configuration-quantified; SSH key exchange uses crypto/rand, so event logs (not verdicts) differ between runs", "built with the repository's nonamespacing tag and GOKRAZY_RSYNC_PRIVDROP=1 so that the daemon does not re-execute itself in a mount namespace; landlock relaxed through restrict.ExtraHook", "only the anonymous listener is held to 'daemon protocol only' (command mode is the documented use of the authorised one)"},
 		Real:        append([]string{"internal/anonssh", "internal/maincmd daemon branch", "internal/rsyncdconfig", "golang.org/x/crypto/ssh (server and client)"}, realCommon...), Stub: append([]string{"non-parking simulated connections (x/crypto/ssh holds a mutex across Write)"}, stubCommon...),
 		Quick:            q(300, 60*time.Second),
-		Thorough: q(1000000, 25*time.Minute),
+		Thorough:         q(1000000, 25*time.Minute),
 		ExtraTags:        "nonamespacing",
 		Env:              []string{"GOKRAZY_RSYNC_PRIVDROP=1"},
 		MaxJobsPerWorker: 10,
@@ -73,7 +73,7 @@ var Meta = map[string]PropMeta{
 		Assumptions: []string{"refproto is the trusted base (go test ./refproto validates it against /usr/bin/rsync --protocol=27 when present)", "file sizes <= 3 MiB"},
 		Real:        realCommon, Stub: append([]string{"peer: reference protocol-27 receiver/sender (verif/sim/refproto)", "sender disk for fs.FS modules: simfs with seeded short reads"}, stubCommon...),
 		Quick:     q(4000, 40*time.Second),
-		Thorough: q(1000000, 20*time.Minute),
+		Thorough:  q(1000000, 20*time.Minute),
 		EnumTotal: 63504,
 	},
 	"C03": {
@@ -101,7 +101,7 @@ var Meta = map[string]PropMeta{
 		Assumptions: []string{"runs as root, so ownership and device creation are really attempted", "a crash of the receiver is recorded as a probe here and judged by C08"},
 		Real:        realCommon, Stub: append([]string{"hostile peer: reference sender"}, stubCommon...),
 		Quick:     q(6000, 35*time.Second),
-		Thorough: q(1000000, 20*time.Minute),
+		Thorough:  q(1000000, 20*time.Minute),
 		EnumTotal: 2448, // 34 vectors x 6 types x 6 option sets x 2 sides, enumerated first by the thorough tier
 	},
 	"C06": {
@@ -156,7 +156,7 @@ var Meta = map[string]PropMeta{
 		Assumptions: []string{"input/configuration-quantified: schedules vary per run but do not decide this property", "directory mtimes and modes of newly created files without -p are unconstrained by the property"},
 		Real:        realCommon, Stub: stubCommon,
 		Quick:           q(6000, 35*time.Second),
-		Thorough: q(1000000, 15*time.Minute),
+		Thorough:        q(1000000, 15*time.Minute),
 		NonRootFraction: 0.25,
 	},
 	"C12": {
@@ -222,7 +222,7 @@ var Meta = map[string]PropMeta{
 		Assumptions:      []string{"race detection is happens-before analysis on free-running in-memory transports (not schedule search): the deterministic scheduler would add happens-before edges", "A4 interleaving is chosen by the Go runtime; hang detection there is exact via synctest quiescence", "capacities below 12 bytes are not generated for daemon arrangements (greeting deadlock is protocol-inherent)"},
 		Real:             realCommon, Stub: stubCommon,
 		Quick:        q(1500, 60*time.Second),
-		Thorough: q(1000000, 25*time.Minute),
+		Thorough:     q(1000000, 25*time.Minute),
 		RaceFraction: 0.25,
 	},
 }
